@@ -164,8 +164,8 @@ impl Monitor for C04 {
     }
     fn cases(&self, tier: Tier) -> u64 {
         match tier {
-            Tier::Quick => 3_000,
-            Tier::Thorough => 100_000,
+            Tier::Quick => 12_000,
+            Tier::Thorough => 250_000,
         }
     }
     fn required_counters(&self) -> Vec<&'static str> {
